@@ -4,6 +4,7 @@ import (
 	"crypto/tls"
 	"fmt"
 	"net"
+	"net/http"
 	"os"
 	"strings"
 	"sync"
@@ -24,6 +25,7 @@ import (
 	"go.nanomsg.org/mangos/v3/protocol/sub"
 	"go.nanomsg.org/mangos/v3/protocol/surveyor"
 	"go.nanomsg.org/mangos/v3/protocol/xpair1"
+	"go.nanomsg.org/mangos/v3/transport/ws"
 	"go.nanomsg.org/mangos/v3/verifhooks"
 
 	"verifharness/hx"
@@ -66,12 +68,17 @@ func TestC13(t *testing.T) {
 		cases = append(cases, mon.CaseSpec{Name: "vt", Spec: sp})
 	}
 	reals := []string{"inproc", "tcp", "ipc", "ws", "tls+tcp", "wss"}
+	// real transports: multi-peer patterns only — with PAIR a reconnecting client can be refused while
+	// the previous connection is still being torn down, which would desynchronise script and connections
 	for i := 0; i < r.Pick(300, 3000); i++ {
-		sp := spec{Kind: "real", Tran: reals[i%len(reals)], Protos: []string{[]string{"pair", "bus", "star", "xpair1"}[rnd.Intn(4)]}, Steps: 3 + rnd.Intn(5), Yield: rnd.Intn(2) == 0}
+		sp := spec{Kind: "real", Tran: reals[i%len(reals)], Protos: []string{[]string{"bus", "star", "rep", "pull"}[rnd.Intn(4)]}, Steps: 3 + rnd.Intn(5), Yield: rnd.Intn(2) == 0}
 		cases = append(cases, mon.CaseSpec{Name: "real/" + sp.Tran, Spec: sp})
 	}
 	for i := 0; i < r.Pick(24, 120); i++ {
 		cases = append(cases, mon.CaseSpec{Name: "opts/" + reals[i%len(reals)], Spec: spec{Kind: "opts", Tran: reals[i%len(reals)]}})
+	}
+	for i := 0; i < r.Pick(4, 20); i++ {
+		cases = append(cases, mon.CaseSpec{Name: "opts/ws-handler-on-own-https", Spec: spec{Kind: "wshandler"}})
 	}
 	r.Run(cases, func(c *mon.Case) {
 		sp := c.Spec.(spec)
@@ -86,6 +93,8 @@ func TestC13(t *testing.T) {
 			runReal(c, sp)
 		case "opts":
 			runOpts(c, sp)
+		case "wshandler":
+			runWSHandler(c, sp)
 		}
 	})
 }
@@ -258,6 +267,11 @@ func (w *recProto) AddPipe(pp mangos.ProtocolPipe) error {
 		return mangos.ErrClosed
 	}
 	err := w.ProtocolBase.AddPipe(pp)
+	if err == nil && rec.action == "xdrop-at-once" {
+		// the protocol's receiver is already failing on the dead connection and closing the pipe:
+		// stretch the moment between "protocol accepted" and "core marks the pipe added"
+		time.Sleep(150 * time.Microsecond)
+	}
 	m.mu.Lock()
 	if err != nil {
 		rec.dead = true
@@ -410,7 +424,7 @@ func runVT(c *mon.Case, sp spec) {
 			var plan, hookPlan []string
 			busy := false
 			for step := 0; step < sp.Steps; step++ {
-				acts := []string{"ok", "ok", "ok-drop", "ok-close-later", "close-in-attaching", "close-in-attached", "refuse"}
+				acts := []string{"ok", "ok", "ok-drop", "ok-close-later", "close-in-attaching", "close-in-attached", "refuse", "xdrop-at-once"}
 				act := acts[rnd.Intn(len(acts))]
 				if isPair && busy && st.side == "listen" {
 					act = "second-peer" // the protocol itself must refuse a second peer
@@ -430,6 +444,14 @@ func runVT(c *mon.Case, sp spec) {
 					h = "ok"
 				}
 				hookPlan = append(hookPlan, h)
+				if st.side == "dial" {
+					// the transport outcome of each successive dial is scripted too
+					if act == "xdrop-at-once" {
+						st.D.Script(vt.Outcome{Kind: vt.SucceedDrop})
+					} else {
+						st.D.Script(vt.Outcome{Kind: vt.Succeed})
+					}
+				}
 			}
 			m.mu.Lock()
 			m.plan[i] = append([]string{}, hookPlan...)
@@ -479,6 +501,9 @@ func runVT(c *mon.Case, sp spec) {
 				var vp *vt.Pipe
 				if st.side == "listen" {
 					vp = st.L.Connect()
+					if act == "xdrop-at-once" {
+						vp.Drop() // the peer is gone before the socket has even looked at the connection
+					}
 				} else if !dialed {
 					dialed = true
 					dc := mon.Go("Dial", func() (interface{}, error) { return nil, st.sock.Dial(vt.Addr(st.name)) })
@@ -528,6 +553,12 @@ func runVT(c *mon.Case, sp spec) {
 							firstPeer, firstRec = vp, rec
 						}
 					}
+				case hookAct == "xdrop-at-once":
+					// the protocol's receiver finds the connection dead as soon as it starts: the pipe is
+					// attached and detached again, both reported exactly once (checked at the end)
+					if !c.AwaitOrViolate("life/no-detach-after-immediate-peer-drop", "Detached for a connection the peer dropped at once: "+where, flag(func(r *pipeRec) bool { return r.detached > 0 && r.attached > 0 }, rec), opts) {
+						return
+					}
 				case hookAct == "close-in-attached":
 					if !c.AwaitOrViolate("life/no-detach-after-close-in-attached", "Detached after the hook closed the pipe in Attached: "+where, flag(func(r *pipeRec) bool { return r.detached > 0 }, rec), opts) {
 						return
@@ -562,7 +593,7 @@ func runReal(c *mon.Case, sp spec) {
 	wrappedSocks.Store(key, true)
 	defer wrappedSocks.Delete(key)
 	srv := protocol.MakeSocket(w)
-	cli := protocol.MakeSocket(protoCtors[sp.Protos[0]]())
+	cli := protocol.MakeSocket(protoCtors[hx.PeerOf[sp.Protos[0]]]())
 	c.Cleanup(func() { srv.Close(); cli.Close() })
 	srv.SetPipeEventHook(m.hook(0))
 	cli.SetPipeEventHook(m.hook(1))
@@ -791,4 +822,59 @@ func runOpts(c *mon.Case, sp spec) {
 	}
 	c.Nontrivial()
 	c.Sig("opts|%s", tr)
+}
+
+// runWSHandler: a ws:// listener whose handler the application mounts on its own HTTPS server —
+// the accepted pipe runs over TLS and its TLS-STATE option must say so.
+func runWSHandler(c *mon.Case, sp spec) {
+	srv := hx.MustSock(c, "pair")
+	cli := hx.MustSock(c, "pair")
+	ws1, wc1 := hx.WatchPipes(srv), hx.WatchPipes(cli)
+	inner, err := net.Listen("tcp", "127.0.0.1:0")
+	if err != nil {
+		c.Inconclusive("setup: %v", err)
+		return
+	}
+	port := inner.Addr().(*net.TCPAddr).Port
+	scfg, ccfg := hx.TLSConfigs()
+	tl := tls.NewListener(inner, scfg)
+	path := "/" + hx.Uniq("h")
+	l, err := srv.NewListener(fmt.Sprintf("ws://127.0.0.1:%d%s", port, path), nil)
+	if err != nil {
+		c.Inconclusive("setup: NewListener: %v", err)
+		tl.Close()
+		return
+	}
+	hv, err := l.GetOption(ws.OptionWebSocketHandler)
+	if err != nil {
+		c.Violate("opts/ws-handler/option", "GetOption(WEBSOCKET-HANDLER): %v", err)
+		tl.Close()
+		return
+	}
+	mux := http.NewServeMux()
+	mux.Handle(path, hv.(http.Handler))
+	hs := &http.Server{Handler: mux}
+	go func() { _ = hs.Serve(tl) }()
+	c.Cleanup(func() { hs.Close() })
+	if err := l.Listen(); err != nil {
+		c.Violate("opts/ws-handler/listen", "Listen in handler mode: %v", err)
+		return
+	}
+	if err := cli.DialOptions(fmt.Sprintf("wss://127.0.0.1:%d%s", port, path), map[string]interface{}{mangos.OptionTLSConfig: ccfg}); err != nil {
+		c.Inconclusive("setup: dial: %v", err)
+		return
+	}
+	if !hx.WaitAttached(c, ws1, 1, "handler side") || !hx.WaitAttached(c, wc1, 1, "dialer side") {
+		return
+	}
+	for side, p := range map[string]mangos.Pipe{"listener (handler mounted on the application's HTTPS server)": ws1.Pipes()[0], "dialer": wc1.Pipes()[0]} {
+		v, err := p.GetOption(mangos.OptionTLSConnState)
+		cs, ok := v.(tls.ConnectionState)
+		if err != nil || !ok || !cs.HandshakeComplete {
+			c.Violate("opts/ws-handler/tls-state-missing", "%s side pipe runs over TLS but TLS-STATE = %T %v (%v)", side, v, v, err)
+		}
+		c.Count("option_checks", 1)
+	}
+	c.Nontrivial()
+	c.Sig("opts|ws-handler")
 }
